@@ -9,6 +9,8 @@ package main
 import (
 	"encoding/json"
 	"fmt"
+	"sort"
+	"sync"
 	"sync/atomic"
 
 	"github.com/inspirer/textmapper/lalr"
@@ -460,6 +462,9 @@ func run(c *core.Ctx) {
 	c.Set("L_operator_family", L)
 	c.Rule("(a) operator family: E with atom x and operators p,q, every subset (<=3) of rule shapes {E p E, E q E, p E, E p, E p E q E} x every assignment of x,p,q to {no precedence, group 1, group 2} x every associativity per group x every %prec marker in {none,p,q} per operator rule; (b) every raw rule set of the tiny scope x all precedence declarations over its terminals. Every lookahead-dependent cell compared with the documented rule over reference-LALR(1) candidates; counts, error status; documented-resolution LR parser vs implementation tables on every input <= L. non-trivial = case with >=1 shift/reduce choice decided by precedence")
 	var parses, nontrivial, mixed int64
+	var candMu sync.Mutex
+	var cands []caseT
+	collect := false
 	eval := func(k caseT, l int) {
 		r := k.check(l, &parses)
 		c.Eval(1)
@@ -469,6 +474,11 @@ func run(c *core.Ctx) {
 		}
 		if r.resolved > 0 {
 			atomic.AddInt64(&nontrivial, 1)
+			if collect && !r.mixed {
+				candMu.Lock()
+				cands = append(cands, k)
+				candMu.Unlock()
+			}
 		}
 		if r.mixed {
 			atomic.AddInt64(&mixed, 1)
@@ -492,6 +502,7 @@ func run(c *core.Ctx) {
 			jobs = append(jobs, job{g, pd})
 		}
 	}
+	collect = true
 	core.ParallelFor(len(jobs), 16, func(i int) {
 		if c.Expired() {
 			c.Capped("operator family not completed (budget)")
@@ -514,6 +525,7 @@ func run(c *core.Ctx) {
 			eval(k, L)
 		}
 	})
+	collect = false
 	c.Set("operator_family_grammars", len(fam))
 	c.Sample(caseT{Grammar: fam[0].String(), Prec: precs3[len(precs3)-1], RulePrec: []int{0, 0}})
 	// (b)
@@ -559,6 +571,16 @@ func run(c *core.Ctx) {
 			c.Capped(fmt.Sprintf("scope %+v stopped after %d grammars (budget)", sc, n))
 		}
 		c.Add("tiny_scope_grammars", int64(n))
+	}
+	collect = false
+	sort.Slice(cands, func(i, j int) bool {
+		a, b := fmt.Sprint(cands[i].Grammar, cands[i].Prec, cands[i].RulePrec), fmt.Sprint(cands[j].Grammar, cands[j].Prec, cands[j].RulePrec)
+		return a < b
+	})
+	if c.Quick() {
+		layerB(c, cands, 80)
+	} else {
+		layerB(c, cands, 3000)
 	}
 	c.Nontrivial(nontrivial)
 	c.Set("parses_compared", parses)
